@@ -21,6 +21,7 @@ const (
 	kindDir = iota + 1
 	kindFile
 	kindSymlink
+	kindOther // locally created special files (FIFO, socket, character device)
 )
 
 func kindName(k int) string {
@@ -31,6 +32,8 @@ func kindName(k int) string {
 		return "file"
 	case kindSymlink:
 		return "symlink"
+	case kindOther:
+		return "special"
 	}
 	return "none"
 }
@@ -363,6 +366,7 @@ var malformedKinds = []string{
 	"dup-dir-dir", "dup-dir-file", "dup-dir-symlink", "dup-file-file", "dup-file-symlink", "dup-symlink-symlink",
 	"bad-digest-dir", "bad-digest-file",
 	"missing-dir-blob", "corrupt-dir-blob", "garbage-dir-blob", "size-mismatch-dir",
+	"symlink-target-nul",
 }
 
 func (g *gen) badDigest() *remoteexecution.Digest {
@@ -466,6 +470,10 @@ func (g *gen) genMalformed(depth int, kind string) *refDir {
 			addDir("Dir", emptyDirDigest)
 			addDir("dIR", emptyDirDigest)
 		}
+	case "symlink-target-nul":
+		// Rejected by the symlink factory after the files and the
+		// earlier symlinks of the directory have been created.
+		m.Symlinks = append(m.Symlinks, &remoteexecution.SymlinkNode{Name: "znul", Target: "a\x00b"})
 	case "bad-digest-dir":
 		addDir("baddigest", g.badDigest())
 	case "bad-digest-file":
